@@ -66,6 +66,19 @@ def build(repo):
         if v == 'True': starred = True
         elif v in ('bool(node.value.external)', 'node.value.external'): starred = None
         else: raise Unknown('PreTranslator.postStarred sets external = %s' % v)
+    # how nested queries and refinements number their parameters (varkey = filter_num, src, code_key)
+    ctree = ast.parse(open(os.path.join(repo, 'pony', 'orm', 'core.py')).read())
+    qcls = next((n for n in ctree.body if isinstance(n, ast.ClassDef) and n.name == 'Query'), None)
+    if qcls is None: raise Unknown('class Query not found')
+    def method(name):
+        m = next((f for f in qcls.body if isinstance(f, ast.FunctionDef) and f.name == name), None)
+        if m is None: raise Unknown('Query.%s not found' % name)
+        return m
+    nested = [ast.unparse(st.value) for st in ast.walk(method('__init__')) if isinstance(st, ast.Assign)
+              and ast.unparse(st.targets[0]) == 'filter_num' and ast.unparse(st.value) != '0']
+    refined = [ast.unparse(st.value) for st in ast.walk(method('_process_lambda')) if isinstance(st, ast.Assign)
+               and ast.unparse(st.targets[0]) == 'new_filter_num']
+    if len(nested) != 1 or len(refined) != 1: raise Unknown('filter_num assignments: %r %r' % (nested, refined))
     def pairs(d): return '[' + ', '.join('("%s", %d)' % kv for kv in sorted(d.items())) + ']'
     text = '\n'.join([
         '/- GENERATED by harness/gen_c04.py from pony/orm/asttranslation.py -- do not edit. -/',
@@ -82,10 +95,13 @@ def build(repo):
         'def decoratorRule : String := "%s"' % rule,
         '/-- does `PreTranslator.postStarred` mark `*expr` external whatever `expr` is -/',
         'def starredForced : Bool := %s' % ('true' if starred else 'false'),
+        '/-- the number a query built over another query / a refinement gives its parameters -/',
+        'def nestedFilterNum : String := "%s"' % nested[0],
+        'def refinedFilterNum : String := "%s"' % refined[0],
         'def nonexternalizable : List String := [' + ', '.join('"%s"' % x for x in nonext) + ']',
         'end PonyVerif.Gen.C04Src', ''])
     info = {'decorated': len(decorated), 'manual': len(manual), 'negConstPrio': neg, 'primaryThreshold': threshold,
-            'decoratorRule': rule, 'nonexternalizable': nonext, 'starredForced': bool(starred)}
+            'decoratorRule': rule, 'nonexternalizable': nonext, 'starredForced': bool(starred), 'nestedFilterNum': nested[0], 'refinedFilterNum': refined[0]}
     return text, info
 
 
